@@ -175,6 +175,7 @@ type ordMsg struct {
 	meth string
 	d    int // handler duration, virtual ms
 	gap  int // pause of the sender after issuing it, virtual ms
+	cb   bool // the handler first calls back into the peer on its own context (ListRoots/Ping, ListTools/Ping), then works for d ms
 }
 
 type ordCase struct {
@@ -186,7 +187,11 @@ type ordCase struct {
 
 func (c *ordCase) cfgOp() string { return fmt.Sprintf("cfg tr=%s dir=%s pv=%s", c.tr, c.dir, c.pv) }
 func (m *ordMsg) op(i int) string {
-	return fmt.Sprintf("m %d dir=%s kind=%c meth=%s d=%d gap=%d", i, m.dir, m.kind, m.meth, m.d, m.gap)
+	cb := 0
+	if m.cb {
+		cb = 1
+	}
+	return fmt.Sprintf("m %d dir=%s kind=%c meth=%s d=%d gap=%d cb=%d", i, m.dir, m.kind, m.meth, m.d, m.gap, cb)
 }
 
 type ordEv struct {
@@ -206,6 +211,7 @@ type ordH struct {
 	mainTag int
 	c       *ordCase
 	carrier int // id of the carrier call of an s2ci scenario (-1: none)
+	cbres   map[int]string
 	script  func(ctx context.Context, ss *ServerSession)
 }
 
@@ -265,6 +271,32 @@ func (h *ordH) recvMW(next MethodHandler) MethodHandler {
 			return next(ctx, method, req)
 		}
 		h.log("beg", tag)
+		if tag >= 0 && tag < len(h.c.msgs) && h.c.msgs[tag].cb {
+			// call back into the peer with the handler's own context, then keep working
+			cctx := context.WithValue(ctx, ordTagKey{}, ordIgnore)
+			var err error
+			switch sess := req.GetSession().(type) {
+			case *ServerSession:
+				if tag%2 == 0 {
+					_, err = sess.ListRoots(cctx, &ListRootsParams{})
+				} else {
+					err = sess.Ping(cctx, &PingParams{})
+				}
+			case *ClientSession:
+				if tag%2 == 0 {
+					_, err = sess.ListTools(cctx, &ListToolsParams{})
+				} else {
+					err = sess.Ping(cctx, &PingParams{})
+				}
+			}
+			h.mu.Lock()
+			if err != nil {
+				h.cbres[tag] = "cb-err"
+			} else {
+				h.cbres[tag] = "cb-ok"
+			}
+			h.mu.Unlock()
+		}
 		if tag >= 0 && tag < len(h.c.msgs) && h.c.msgs[tag].d > 0 {
 			time.Sleep(time.Duration(h.c.msgs[tag].d) * time.Millisecond)
 		}
@@ -285,12 +317,14 @@ func (h *ordH) issue(ctx context.Context, i int, cs *ClientSession, ss *ServerSe
 			h.mu.Lock()
 			h.mainTag = i
 			h.mu.Unlock()
-			if i%2 == 0 {
-				client.AddRoots(&Root{URI: fmt.Sprintf("file:///r%d", i)})
-			} else {
-				client.RemoveRoots(fmt.Sprintf("file:///r%d", i-1), fmt.Sprintf("file:///r%d", i-3))
-				client.AddRoots(&Root{URI: fmt.Sprintf("file:///q%d", i)}) // RemoveRoots notifies only if something was removed
+			if i%3 == 2 && i >= 3 {
+				// RemoveRoots notifies only if something was removed: r(i-1) exists iff message i-1 was a roots message
+				if prev := h.c.msgs[i-1]; prev.meth == "roots" && (i-1)%3 != 2 {
+					client.RemoveRoots(fmt.Sprintf("file:///r%d", i-1))
+					break
+				}
 			}
+			client.AddRoots(&Root{URI: fmt.Sprintf("file:///r%d", i)})
 		case "prog":
 			err = cs.NotifyProgress(ctx, &ProgressNotificationParams{ProgressToken: "tok", Progress: float64(i), Message: "p"})
 		case "tool":
@@ -373,7 +407,7 @@ func ordRunCase(t *testing.T, out *verifOut, id string, c *ordCase) {
 	}
 	defer flush()
 	synctest.Test(t, func(t *testing.T) {
-		h := &ordH{t0: time.Now(), c: c, carrier: -1, mainTag: 0}
+		h := &ordH{t0: time.Now(), c: c, carrier: -1, mainTag: 0, cbres: map[int]string{}}
 		status := "ok"
 		defer func() {
 			if r := recover(); r != nil {
@@ -554,6 +588,9 @@ func ordRunCase(t *testing.T, out *verifOut, id string, c *ordCase) {
 			if overlap[i] {
 				tags = append(tags, "overlapped")
 			}
+			if m.cb {
+				tags = append(tags, "callback", h.cbres[i])
+			}
 			if b, s := per[i]["beg"], per[i]["snd"]; b != "" && s != "" && b[strings.Index(b, "@"):] != s[strings.Index(s, "@"):] {
 				tags = append(tags, "waited")
 			}
@@ -634,6 +671,9 @@ func ordGen(rng *rand.Rand, tr string, maxLen int) *ordCase {
 		note := rng.Intn(100) < pn
 		if c.dir == "c2s" {
 			m.dir = "c2s"
+			if note && isNew && stateless && rng.Intn(8) != 0 {
+				note = false // the SDK's stateless server answers the SDK client's 2026-07-28 notifications with 400
+			}
 			if note {
 				m.kind = 'n'
 				m.meth = []string{"roots", "prog"}[rng.Intn(2)]
@@ -658,7 +698,19 @@ func ordGen(rng *rand.Rand, tr string, maxLen int) *ordCase {
 		if m.kind == 0 {
 			m.kind = []byte{'c', 'c', 'g', 'g', 'r'}[rng.Intn(5)]
 		}
+		if m.kind == 'n' && rng.Intn(3) == 0 {
+			m.cb = true
+			if m.d == 0 {
+				m.d = 1 + rng.Intn(1000) // the handler keeps working after its outgoing call
+			}
+		}
 		c.msgs = append(c.msgs, m)
+	}
+	if !isNew && rng.Intn(4) == 0 {
+		c.msgs[1].cb = true // the server's `initialized` handler calls back, too
+		if c.msgs[1].d == 0 {
+			c.msgs[1].d = 1 + rng.Intn(50)
+		}
 	}
 	return c
 }
@@ -690,7 +742,7 @@ func ordParse(lines []string) (*ordCase, bool) {
 			if k == "" {
 				return nil, false
 			}
-			c.msgs = append(c.msgs, ordMsg{dir: kv(f, "dir"), kind: k[0], meth: kv(f, "meth"), d: d, gap: g})
+			c.msgs = append(c.msgs, ordMsg{dir: kv(f, "dir"), kind: k[0], meth: kv(f, "meth"), d: d, gap: g, cb: kv(f, "cb") == "1"})
 		}
 	}
 	return c, c.tr != "" && len(c.msgs) > 0
